@@ -19,7 +19,7 @@ func init() {
 	register(&CheckDef{
 		ID:    "C18",
 		Level: "fault_enumeration",
-		Rule:  "the 'network' is the reader/writer argument: seeded values of all seven stream frame types (names and lease ids of any length and content, all integer ranges), position maps, and chunked bodies around the 65535-byte chunk limit are written through writers that split arbitrarily and read back through readers that deliver 1..k bytes per call (the schedule); then the encoding is cut at EVERY proper prefix (EOF at an arbitrary instant = the crash) and each prefix must yield an error - never a value, never a clean end-of-data; hostile length prefixes and random bytes are decoded under an allocation budget linear in the bytes supplied and a fake-clock deadline (no hang). evaluations = decode attempts; distinct = distinct (kind, size class, prefix class) tuples; non-trivial = run with at least 50 prefix cuts checked",
+		Rule:  "the 'network' is the reader/writer argument: seeded values of all seven stream frame types (names and lease ids of any length and content, all integer ranges), position maps, and chunked bodies around the 65535-byte chunk limit are written through writers that split arbitrarily and read back through readers that deliver 1..k bytes per call (the schedule); then the encoding is cut at EVERY proper prefix (EOF at an arbitrary instant = the crash) and each prefix must yield an error - never a value, never a clean end-of-data; hostile length prefixes and random bytes are decoded under an allocation budget linear in the bytes supplied and a fake-clock deadline (no hang). two chunked bodies written at the same time over synchronous transports with one peer stalled must both read back exactly; evaluations = decode attempts; distinct = distinct (kind, size class, prefix class) tuples; non-trivial = run with at least 50 prefix cuts checked",
 		Run:   runC18,
 		NonTrivial: func(r *Run) bool {
 			return r.Stats["c18.prefix.checked"] >= 50
@@ -138,8 +138,8 @@ func allocBudget(n int) uint64 { return 1<<20 + 64*uint64(n) + 1<<17 }
 
 func runC18(r *Run) {
 	t := r.Tape
-	kind := t.Pick([]int{4, 3, 4, 3})
-	r.Cfg["kind"] = []string{"frame", "posmap", "chunked", "hostile"}[kind]
+	kind := t.Pick([]int{4, 3, 4, 3, 2})
+	r.Cfg["kind"] = []string{"frame", "posmap", "chunked", "hostile", "two-streams"}[kind]
 	deadline := time.Now().Add(time.Hour) // fake clock: a decoder that sleeps/blocks would trip the bubble, a spin trips the watchdog
 	_ = deadline
 	switch kind {
@@ -151,7 +151,84 @@ func runC18(r *Run) {
 		c18Chunked(r)
 	case 3:
 		c18Hostile(r)
+	case 4:
+		c18TwoStreams(r)
 	}
+}
+
+// c18TwoStreams: two chunked bodies are written at the same time (a primary
+// streams to two replicas) over synchronous transports that take the bytes of a
+// Write only when the peer reads (io.Pipe; an HTTP/2 body against a closed
+// flow-control window behaves alike). One peer stalls while the other stream
+// goes on: each body must still read back exactly.
+func c18TwoStreams(r *Run) {
+	t := r.Tape
+	r.Step()
+	mk := func() []byte {
+		b := make([]byte, []int{1, 10, 1000, 65535, 70000}[t.Next(5)])
+		t.Bytes(b)
+		return b
+	}
+	bodies := [2][]byte{mk(), mk()}
+	var prd, pwr [2]*io.PipeReader
+	var pww [2]*io.PipeWriter
+	_ = pwr
+	for i := range bodies {
+		prd[i], pww[i] = io.Pipe()
+	}
+	werr := make(chan error, 2)
+	writer := func(i int) {
+		cw := chunk.NewWriter(pww[i])
+		rest := bodies[i]
+		for len(rest) > 0 {
+			n := len(rest)
+			if n > 40000 {
+				n = 40000
+			}
+			if _, err := cw.Write(rest[:n]); err != nil {
+				werr <- err
+				pww[i].CloseWithError(err)
+				return
+			}
+			rest = rest[n:]
+		}
+		err := cw.Close()
+		pww[i].CloseWithError(err)
+		werr <- err
+	}
+	got := [2][]byte{}
+	rerr := [2]error{}
+	rdone := make(chan int, 2)
+	reader := func(i int, delay time.Duration) {
+		time.Sleep(delay)
+		got[i], rerr[i] = io.ReadAll(chunk.NewReader(prd[i]))
+		rdone <- i
+	}
+	// stream 0's peer stalls; stream 1 runs to its end meanwhile
+	stall := time.Duration(t.Range(1, 50)) * time.Millisecond
+	go writer(0)
+	time.Sleep(time.Millisecond) // writer 0 is now blocked inside a transport write
+	go writer(1)
+	go reader(1, 0)
+	go reader(0, stall)
+	for k := 0; k < 2; k++ {
+		select {
+		case <-rdone:
+		case <-time.After(10 * time.Second):
+			r.Failf("c18.two-streams", "two concurrent chunked bodies: a reader has not finished after 10 s")
+			return
+		}
+	}
+	for i := range bodies {
+		if !r.Check(rerr[i] == nil, "c18.two-streams", "two concurrent chunked bodies (%d and %d bytes, peer of the first stalled for %v): reading body %d failed after %d bytes: %v", len(bodies[0]), len(bodies[1]), stall, i, len(got[i]), rerr[i]) {
+			return
+		}
+		if !r.Check(bytes.Equal(got[i], bodies[i]), "c18.two-streams", "two concurrent chunked bodies (%d and %d bytes, peer of the first stalled for %v): body %d changed in transit without an error: %d bytes read", len(bodies[0]), len(bodies[1]), stall, i, len(got[i])) {
+			return
+		}
+	}
+	r.Count("c18.two-streams.checked")
+	r.State("two-streams/%s/%s", lenClass(len(bodies[0])), lenClass(len(bodies[1])))
 }
 
 func c18Frames(r *Run) {
